@@ -207,6 +207,15 @@ def valid_mutation(K, rng, slot=0):
             o = {"op": "var_set", "var": v["n"], "field": "arches", "value": new_arches}
             o.update(sl)
             return o
+    late = [(v, a) for v in K["vars"] if v["parent"] is None or True for t in v["paths"].values() for a in t
+            if a not in v["arches"] and (v["parent"] is None or a in K["vars"][v["parent"]]["arches"])]
+    if late and r < 0.3:
+        # the variant gains an architecture for which paths were recorded EARLIER (they were not part of the output so far)
+        v, a = pick(rng, late)
+        v["arches"] = sorted(v["arches"] + [a])
+        o = {"op": "var_set", "var": v["n"], "field": "arches", "value": list(v["arches"])}
+        o.update(sl)
+        return o
     if r < 0.4:
         o = {"op": "ci_set", "sec": "compose", "field": "respin", "value": rng.randint(3, 9)}
     elif r < 0.7:
